@@ -98,3 +98,17 @@ Definition name_present (o : option string) : bool :=
 Definition entry_okb (cs : list (N * bytes)) (cid_of : bytes -> N) (e : entry) : bool :=
   (member_okb (member_of_entry cs e) && forallb comp_ok (e_path e) && name_present (e_uname e) && name_present (e_gname e)
    && (cid_of (snd (member_of_entry cs e)) =? e_cid e)%N)%bool.
+
+(* ---- the byte envelope as a predicate on the TREE ---------------------------------------
+   Decided node by node, at the node's path: the entry walkFS makes of the node
+   (directory header, or file / symlink / device / recorded hard link) is inside
+   [entry_okb].  No reference to the walk, its order or its concatenation. *)
+Fixpoint tree_bytes_okb (ev : env) (cs : list (N * bytes)) (cid_of : bytes -> N) (p : path) (t : tree) {struct t} : bool :=
+  match t with
+  | File m l h => entry_okb cs cid_of (file_entry ev p m l h)
+  | Dir m ch =>
+      (entry_okb cs cid_of (dir_entry ev p m) &&
+       forallb (fun nc : string * tree => let (n, c) := nc in tree_bytes_okb ev cs cid_of (p ++ [n]) c) ch)%bool
+  end.
+Definition forest_bytes_okb (ev : env) (cs : list (N * bytes)) (cid_of : bytes -> N) (f : forest) : bool :=
+  forallb (fun nc : string * tree => let (n, c) := nc in tree_bytes_okb ev cs cid_of [n] c) f.
